@@ -38,7 +38,8 @@ def run(ctx):
         "pruneDatasets(purge) of two datasets; pruneDatasets(unstore) of one; purge of one of two datasets sharing a file; removeRuns; "
         "emptyTrash with a trashed dataset}: for each, every crash point k = 1..n+1 before the k-th durable event of the real operation "
         "(modifying SQL statement, BEGIN, COMMIT, ROLLBACK, file write, copy, rename, link, delete) and the middle of every write / copy; "
-        "non-trivial = crash points at which some effect had already happened and some was still to come"
+        "thorough tier: for the removals also every pair (crash point of the operation, crash point 1..15 of the recovery that re-runs it and "
+        "empties the trash); non-trivial = crash points at which some effect had already happened and some was still to come"
     )
     ctx.assumptions = [
         "SQLite makes a committed transaction durable and discards an open one when the process dies (journal mode as configured by daf_butler)",
@@ -252,6 +253,66 @@ def crash_run(args):
     return out
 
 
+def double_crash_run(args):
+    """Thorough tier: the operation dies before event k; the *recovery* (re-running the removal, emptying the trash) then dies
+    before its own event j; what a fresh process finds after that must again be recoverable (the oracle re-runs the recovery)."""
+    template, meta, scen, k, j, workdir = args
+    area = os.path.join(workdir, f"{scen}-{k}-then-{j}")
+    shutil.copytree(template, area)
+    codes = []
+    for phase, crash_at in (("op", k), ("recovery", j)):
+        pid = os.fork()
+        if pid == 0:
+            try:
+                import warnings
+
+                warnings.filterwarnings("ignore")
+                from lsst.daf.butler import Butler
+                from vlib import crashhooks
+
+                counter = [0x9000]
+
+                def fake_uuid4():
+                    counter[0] += 1
+                    return uuid.UUID(int=counter[0])
+
+                uuid.uuid4 = fake_uuid4
+                os.environ["LSST_RESOURCES_NUM_WORKERS"] = "1"
+                h = crashhooks.Hooks(os.path.join(area, f"trace-{phase}.jsonl"), crash_at=crash_at, mode="before")
+                crashhooks.install(h)
+                b = Butler.from_config(os.path.join(area, "repo"), writeable=True, run="r1")
+                kind, targets, op = scenario_ops()[scen]
+                h.active = True
+                if phase == "op":
+                    op(b, area, meta)
+                else:
+                    still = [n for n in targets if b.get_dataset(uuid.UUID(meta["ids"][n])) is not None]
+                    if kind != "empty" and len(still) == len(targets):
+                        op(b, area, meta)
+                    b._datastore.emptyTrash()
+                h.active = False
+                os._exit(0)
+            except BaseException:  # noqa: BLE001
+                try:
+                    with open(os.path.join(area, "child-error.txt"), "w") as fh:
+                        import traceback
+
+                        fh.write(f"phase {phase}\n" + traceback.format_exc())
+                finally:
+                    os._exit(3)
+        _, status = os.waitpid(pid, 0)
+        codes.append(os.waitstatus_to_exitcode(status))
+        if codes[-1] == 3:
+            break
+    out = {"scenario": scen, "k": k, "j": j, "exits": codes}
+    if 3 in codes:
+        out["child_error"] = open(os.path.join(area, "child-error.txt")).read()[-1500:]
+    else:
+        out["oracle"] = oracle(area, meta, scen)
+    shutil.rmtree(area, ignore_errors=True)
+    return out
+
+
 def oracle(area, meta, scen):
     """What a fresh Butler sees on the recovered repository; then the re-run of an interrupted removal."""
     import warnings
@@ -453,7 +514,30 @@ def crash_points(ctx, model_ok, tmp):
                 if f["trace"][k - 1]["kind"] in ("write", "copy"):
                     jobs.append((template, meta, n, k, "mid", work))
         results = pool.map(crash_run, jobs, chunksize=1)
+        doubles = []
+        if not ctx.quick():
+            djobs = []
+            for n in names:
+                if scenarios[n][0] in ("remove", "unstore", "empty") and full[n]["exit"] == 0:
+                    nev = len(full[n]["trace"])
+                    for k in range(1, nev + 1):
+                        for j in range(1, 16):
+                            djobs.append((template, meta, n, k, j, work))
+            doubles = pool.map(double_crash_run, djobs, chunksize=4)
 
+    for r_ in doubles:
+        ctx.evaluations += 1
+        ctx.count(f"double-crash:{r_['scenario']}")
+        if "child_error" in r_:
+            # the second phase raising (not dying) is a failed recovery
+            viol(f"{r_['scenario']} interrupted before event {r_['k']}: the recovery (re-run + emptyTrash), itself set to die before its event {r_['j']}, "
+                 f"raised instead: {r_['child_error'][-300:]}", f"double-crash-error:{r_['scenario']}:{r_['k']}:{r_['j']}",
+                 {"kind": "double-crash", **{k_: r_[k_] for k_ in ("scenario", "k", "j")}})
+            continue
+        ctx.nontrivial.add((r_["scenario"], r_["k"], "then", r_["j"]))
+        for pr in r_["oracle"]:
+            viol(f"{r_['scenario']} interrupted before event {r_['k']}, recovery interrupted before its event {r_['j']}: {pr}",
+                 f"double-crash:{r_['scenario']}:{r_['k']}:{r_['j']}:{pr[:40]}", {"kind": "double-crash", **{k_: r_[k_] for k_ in ("scenario", "k", "j")}, "problem": pr})
     req, impl = [], []
     by_scen = {}
     for r_ in results:
